@@ -266,6 +266,23 @@ def gen_case(rng, kind="valid"):
             edges.append([e[0], rng.choice(T), "1", list(e[3])])
         if not edges:
             continue
+        if kind == "mixkinds":
+            # dde_approx = 0: plain discrete delays (>= 2 steps) and (delay, spread) edges in one circuit — leaving the same source
+            # node, different source nodes of one class (vectorized: one merged source variable), or unrelated sources; every edge is
+            # compared with the Spec of ITS kind (ring-buffer delay of round(d/dt) steps resp. gamma kernel)
+            dde = 0
+            for _ in range(rng.randint(1, 3)):
+                mode = rng.choice(["same", "class", "any"])
+                e = rng.choice([x for x in edges if x[3] != "nokey"] or [None])
+                if e is None:
+                    break
+                s_ = e[0] if mode == "same" else rng.choice([i for i in S if nodes[i]["cls"] == nodes[e[0]]["cls"]]) if mode == "class" else rng.choice(S)
+                t_ = rng.choice(T)
+                if not vec and any(x[0] == s_ and x[1] == t_ for x in edges):
+                    continue
+                edges.append([s_, t_, str(Fr(rng.choice([-3, -2, -1, 1, 2, 3]), 2)), [str(rng.randint(2, 5) * dt)]])
+            if not any(x[3] != "nokey" and len(x[3]) == 1 for x in edges):
+                continue
         if kind == "mixkeys":
             # vectorized, dde_approx > 0, a plain-delay edge and a (delay, spread) edge in ONE edge group (same source class, target class)
             vec = True; dde = dde or rng.choice([1, 2])
@@ -284,6 +301,14 @@ def gen_case(rng, kind="valid"):
                 dde = rng.choice([1, 2]); edges.append([s_, rng.choice(T), "1", ["1"]])
             else:
                 edges.append([s_, rng.choice(T), "1", ["1", str(sp)]])
+        if kind == "valid" and dde == 0 and rng.random() < 0.25:
+            # a source (class) whose edges are all plain discrete delays: the ring-buffer branch next to the kernels of other sources
+            free = [i for i in S if not any(e[0] == i or (vec and nodes[e[0]]["cls"] == nodes[i]["cls"]) for e in edges if e[3] != "nokey" and len(e[3]) == 2)]
+            if free:
+                s_ = rng.choice(free)
+                for t_ in rng.sample(T, rng.randint(1, min(2, len(T)))):
+                    if not any(x[0] == s_ and x[1] == t_ for x in edges):
+                        edges.append([s_, t_, str(Fr(rng.choice([-3, -2, -1, 1, 2, 3]), 2)), [str(rng.randint(2, 5) * dt)]])
         case = dict(dt=str(dt), steps=rng.randint(8, 12), vectorize=vec, dde=dde, nodes=nodes, edges=edges)
         if kind == "intdelay":
             case["int_edges"] = [len(edges) - 1]
@@ -348,7 +373,8 @@ def nontrivial(case):
 
 # ---------------------------------------------------------------------------------------------- model side
 LIST_GUARDS = ["g_no_tap_on_buffered", "g_no_int_unit_delay", "g_no_twin_collision"]
-GUARDS = ["g_all_spread", "g_no_undelayed_kernel", "g_above_step", "g_rates_exact", "g_no_scalar_shared_chain", "g_uniform_keys"] + LIST_GUARDS
+SCOPE_GUARDS = ["g_plain_ge2"]          # plain discrete delays below two steps are neglected by the implementation: mechanism model only
+GUARDS = ["g_no_plain_in_spread_group", "g_plain_ge2", "g_no_undelayed_kernel", "g_above_step", "g_rates_exact", "g_no_scalar_shared_chain", "g_uniform_keys"] + LIST_GUARDS
 HEADER = """From Coq Require Import List ZArith QArith Qcanon Bool Arith.
 From PV Require Import Ring Gamma Corr.
 Import ListNotations.
@@ -467,7 +493,7 @@ def check(ctx):
         cases = [c["case"] if "case" in c else c for c in load_corpus("C11")]
         cases += [gen_case(ctx.rng, "valid") for _ in range(n_valid)]
         cases += [gen_case(ctx.rng, "chains") for _ in range(n_valid // 5)]
-        for kind in ("plain", "dde", "kernel", "shared", "perm", "tap", "intdelay", "mixkeys", "twin"):
+        for kind in ("plain", "dde", "kernel", "shared", "perm", "tap", "intdelay", "mixkeys", "twin", "mixkinds", "mixkinds"):
             cases += [gen_case(ctx.rng, kind) for _ in range(n_viol)]
         cases += [gen_conn(ctx.rng) for _ in range(n_valid * 2 // 5)]
     is_conn = [bool(c.get("connectivity")) for c in cases]
@@ -484,8 +510,12 @@ def check(ctx):
     assert not nwf, f"generator produced ill-formed circuits: {nwf[:5]}"
     guard_viol = {}
     for g in GUARDS:
+        if g in SCOPE_GUARDS:
+            continue
         for i in gfalse[g]:
             guard_viol.setdefault(good[i], []).append(g)
+    out_of_scope = {good[i] for g in SCOPE_GUARDS for i in gfalse[g]}
+    badS = [i for i in badS if i not in out_of_scope]
     cgood = [i for i in ci if i not in crashed]
     badC, badSc, gcf, gct = conn_compare(ctx, [cases[i] for i in cgood], [outs[i] for i in cgood], "conn")
     badI += [cgood[i] for i in badC]; badS += [cgood[i] for i in badSc]
